@@ -148,14 +148,18 @@ def run : FS → List Op → Option FS
 def content (s : FS) (f : Str) : Option Bytes :=
   (aget s.dir f).bind (fun i => (aget s.inodes i).map (·.cur))
 
+/-- contents a reader may find at `f` when the directory state `d` survived: the inode's synced
+content or any image of its unsynced modifications (`none` = no such file). -/
+def look (s : FS) (d : Dir) (f : Str) : List (Option Bytes) :=
+  match aget d f with
+  | none => [none]
+  | some i => match aget s.inodes i with
+    | none => [none]
+    | some ino => ino.images.map some
+
 /-- every content a reader may find at `f` after a crash in state `s`. -/
 def crashContents (s : FS) (f : Str) : List (Option Bytes) :=
-  (s.dir :: s.dirOld).flatMap (fun d =>
-    match aget d f with
-    | none => [none]
-    | some i => match aget s.inodes i with
-      | none => [none]
-      | some ino => ino.images.map some)
+  (s.dir :: s.dirOld).flatMap (fun d => look s d f)
 
 def oldOrNew (s : FS) (f : Str) (old : Option Bytes) (new : Bytes) : Bool :=
   (crashContents s f).all (fun c => c == old || c == some new)
